@@ -53,7 +53,7 @@ func buildGroovyMap(pathExprCtx *parser.PathExpressionContext) []core_domain.Cod
 			expressionContext := pathElement.ClosureOrLambdaExpression().(*parser.ClosureOrLambdaExpressionContext)
 			if reflect.TypeOf(expressionContext.GetChild(0)).String() == "*parser.ClosureContext" {
 				closureContext := expressionContext.GetChild(0).(*parser.ClosureContext)
-				nodeDeps = buildBlockStatements(closureContext)
+				nodeDeps = append(nodeDeps, buildBlockStatements(closureContext)...)
 				return nodeDeps
 			}
 		}
